@@ -215,8 +215,9 @@ func (w *World) relevant(v *view, it *Item) bool {
 	return false
 }
 
-func (w *World) relevantItems(v *view, partitioned func(from, to int) bool) []*Item {
+func (w *World) relevantItems(v *view, partitioned func(from, to int) bool, policy ...bool) []*Item {
 	split := partitioned != nil && w.Cfg.Attack == "split"
+	delays := len(policy) > 0 && policy[0] && w.Cfg.DelayPct > 0
 	var out []*Item
 	for _, h := range []int64{v.rs.Height, v.rs.Height - 1} {
 		for _, it := range w.pool.byH[h] {
@@ -231,6 +232,9 @@ func (w *World) relevantItems(v *view, partitioned func(from, to int) bool) []*I
 					continue
 				}
 			} else if partitioned != nil && it.Signer >= 0 && partitioned(it.Signer, v.nd.id) {
+				continue
+			}
+			if delays && w.delayedFor(it, v.nd.id) {
 				continue
 			}
 			if w.relevant(v, it) {
@@ -548,4 +552,29 @@ func truncStr(s string, n int) string {
 		return s[:n]
 	}
 	return s
+}
+
+// delayedFor: slow links. A seeded fraction of (artefact, receiver) pairs is held back for a seeded
+// number of steps after the artefact came into existence, so that votes, proposals and parts of a
+// round arrive when the receiver is one or two rounds further (policy only; the fair suffix and
+// replay do not consult it).
+func (w *World) delayedFor(it *Item, node int) bool {
+	var h uint64 = 1469598103934665603
+	mix := func(b byte) { h ^= uint64(b); h *= 1099511628211 }
+	for i := 0; i < len(it.ID); i++ {
+		mix(it.ID[i])
+	}
+	mix(byte(node))
+	for i := uint(0); i < 8; i++ {
+		mix(byte(w.Cfg.Seed >> (8 * i)))
+	}
+	if int(h%100) >= w.Cfg.DelayPct {
+		return false
+	}
+	hold := 20 + int((h/100)%uint64(w.Cfg.DelayMax))
+	if w.Step < it.born+hold {
+		w.Faults.Inc("delayed_link_steps")
+		return true
+	}
+	return false
 }
